@@ -4,6 +4,7 @@ import (
 	"fmt"
 	"go/token"
 	"go/types"
+	"sort"
 	"strings"
 
 	"golang.org/x/tools/go/ssa"
@@ -108,6 +109,36 @@ func C19(c *Ctx) {
 			guardCall = cl
 		}
 	})
+	// a guard given as source is compiled into the session's Output element (the one whose Guard is tested and run)
+	{
+		var gstores []*ssa.Store
+		for _, f := range ssau.WithAnon(run) {
+			gstores = append(gstores, storesToPkg(f, "tools/expect", "Output", "Guard")...)
+		}
+		okGS := len(gstores) > 0
+		whyGS := "a guard given as GuardSource is never compiled into Output.Guard"
+		for _, st := range gstores {
+			_, _, base, _ := ssau.FieldOf(st.Addr)
+			if !isOutputElem(base) {
+				okGS, whyGS = false, "the compiled guard is stored into a copy of the Output ("+c.pos(st)+"); the element that is tested later still has no guard, so a bare pattern match counts as accepted"
+			}
+			if st.Parent() != F && okGS {
+				// compiled elsewhere: must still be the element
+				continue
+			}
+		}
+		if guardCall != nil {
+			// the executed guard is read from the element
+			recvOK := false
+			if gb, is := ssau.LoadOfField(guardCall.Common().Value, prog.Abs("tools/expect"), "Output", "Guard"); is && isOutputElem(gb) {
+				recvOK = true
+			}
+			if !recvOK {
+				okGS, whyGS = false, "the guard that is run is not the Guard field of the session's Output element"
+			}
+		}
+		c.R.Check(okGS, "C19-R2", "Run: a GuardSource is compiled into the Output element whose guard is run", c.P.Pos(F.Pos()), fmt.Sprintf("%d store(s) to Output.Guard, all through &OutputSet[i]", len(gstores)), whyGS)
+	}
 	if guardCall == nil {
 		c.R.Violate("C19-R2", "Run: guard executed", c.P.Pos(F.Pos()), "expected outputs' guards are never executed")
 	} else if okMark {
@@ -246,28 +277,91 @@ func C19(c *Ctx) {
 				okExit, whyExit = false, "'all satisfied' can be concluded before any line was read: a step that only forbids outputs passes whatever the subprocess prints"
 			}
 		}
-		c.R.Check(okExit, "C19-R3", "Run: success only after a line was processed and the countdown is zero", c.P.Pos(F.Pos()), "return nil is dominated by the read and by need == 0", whyExit)
-		// initial value counts non-inverted outputs
-		okInit := false
-		ssau.Instrs(F, func(in ssa.Instruction) {
-			if bo, ok := in.(*ssa.BinOp); ok && bo.Op == token.ADD {
-				if n, isC := ssau.ConstInt(bo.Y); isC && n == 1 {
-					for _, f := range flow.FactsAt(bo.Block()) {
-						if _, is := ssau.LoadOfField(f.Cond, prog.Abs("tools/expect"), "Output", "Inverted"); is && !f.True {
-							okInit = true
-						}
+		// every output of the set is tried against the line before success is concluded
+		if Lo := flow.InnermostLoop(flow.Loops(F), matchCall.Block()); Lo != nil {
+			for _, b := range F.Blocks {
+				ret, isRet := b.Instrs[len(b.Instrs)-1].(*ssa.Return)
+				if !isRet || !ssau.IsNilConst(ret.Results[0]) {
+					continue
+				}
+				for _, ex := range Lo.Exits() {
+					if ex[0] == Lo.Header {
+						continue
 					}
-					for _, p := range bo.Block().Preds {
-						for _, f := range flow.EdgeFacts(p, bo.Block()) {
-							if _, is := ssau.LoadOfField(f.Cond, prog.Abs("tools/expect"), "Output", "Inverted"); is && !f.True {
-								okInit = true
-							}
-						}
+					if ex[1] == b || reachWithoutLoopHead(ex[1], b, F) {
+						okExit, whyExit = false, "success is returned from inside the loop over the step's outputs ("+c.pos(ret)+"): outputs listed later — forbidden ones included — are never tried against that line"
 					}
 				}
 			}
-		})
-		c.R.Check(okInit, "C19-R3", "Run: countdown starts at the number of non-inverted outputs", c.P.Pos(F.Pos()), "incremented per output under !Inverted", "the countdown is not initialised to the number of expected (non-inverted) outputs")
+		} else {
+			okExit, whyExit = false, "the matcher is not called in a loop over the step's outputs"
+		}
+		c.R.Check(okExit, "C19-R3", "Run: success only after a line was processed and the countdown is zero", c.P.Pos(F.Pos()), "return nil is dominated by the read and by need == 0", whyExit)
+		// initial value counts non-inverted outputs
+		okInit := false
+		var extraInit []string
+		// the additions that define the countdown's starting value
+		counterDefs := map[ssa.Value]bool{}
+		scope := append([]*ssa.Function{F}, pkgClosure(run)...)
+		var addDefs func(v ssa.Value, depth int)
+		addDefs = func(v ssa.Value, depth int) {
+			for _, d := range deepDefs(v, scope) {
+				if counterDefs[d] {
+					continue
+				}
+				counterDefs[d] = true
+				// n+1 where n is itself a counter value: follow n (the loop-carried phi of the counting loop)
+				if bo, ok := d.(*ssa.BinOp); ok && bo.Op == token.ADD && depth < 4 {
+					addDefs(bo.X, depth+1)
+				}
+			}
+		}
+		addDefs(dec.X, 0)
+		for d := range counterDefs {
+			bo, ok := d.(*ssa.BinOp)
+			if !ok || bo.Op != token.ADD {
+				continue
+			}
+			if n, isC := ssau.ConstInt(bo.Y); !isC || n != 1 {
+				continue
+			}
+			for _, f := range flow.FactsAt(bo.Block()) {
+				if _, is := ssau.LoadOfField(f.Cond, prog.Abs("tools/expect"), "Output", "Inverted"); is && !f.True {
+					okInit = true
+				}
+			}
+			for _, p := range bo.Block().Preds {
+				for _, f := range flow.EdgeFacts(p, bo.Block()) {
+					if _, is := ssau.LoadOfField(f.Cond, prog.Abs("tools/expect"), "Output", "Inverted"); is && !f.True {
+						okInit = true
+					}
+				}
+			}
+			// ... and under nothing else (apart from the loop's own bound)
+			for _, f := range flow.FactsAt(bo.Block()) {
+				if _, is := ssau.LoadOfField(f.Cond, prog.Abs("tools/expect"), "Output", "Inverted"); is {
+					continue
+				}
+				if f.If != nil {
+					isHdr := false
+					for _, l := range flow.Loops(bo.Parent()) {
+						if l.Header == f.If.Block() {
+							isHdr = true
+						}
+					}
+					if isHdr {
+						continue
+					}
+				}
+				extraInit = append(extraInit, c.posv(f.Cond))
+			}
+		}
+		sort.Strings(extraInit)
+		whyInit := "the countdown is not initialised to the number of expected (non-inverted) outputs"
+		if okInit && len(extraInit) > 0 {
+			okInit, whyInit = false, "an expected output is counted only under a further condition ("+strings.Join(extraInit, ", ")+"): the step can pass with that expectation never met"
+		}
+		c.R.Check(okInit, "C19-R3", "Run: countdown starts at the number of non-inverted outputs", c.P.Pos(F.Pos()), "incremented per output under !Inverted and nothing else", whyInit)
 	}
 	// ---- R4
 	okBoth := false
